@@ -406,7 +406,8 @@ Lemma c_of_helper_int op md f a b :
   c_of (EBin op (EInt a) (EInt b)) [] = Some (COk (CInt (if md then c_mod a b else c_floordiv a b), [])).
 Proof.
   intros Ht Hf Hn Ha Hb Hb0 Hr. unfold c_of. cbn [to_c].
-  destruct (bin_tok op); [|congruence]. cbn [tbind]. rewrite Hf.
+  assert (EW : add_wrap op (EInt a) (EInt b) = false) by (destruct op; reflexivity).
+  destruct (bin_tok op); [|congruence]. cbn [tbind]. rewrite EW, Hf. cbn zeta.
   assert (Hmin : text_eqb f t_min || text_eqb f t_max = false).
   { unfold helper_name in Hn. destruct (text_eqb f t_floordiv) eqn:E1.
     - apply text_eqb_eq in E1. subst f. reflexivity.
@@ -498,13 +499,17 @@ Lemma str_bool_refuted : exists e : pexpr,
   py_of e = Ok (VStr t_True) /\ c_of e [] = Some (COk (CStr [49], [])).
 Proof. exists (ECall n_str [EBool true] []). split; vm_compute; reflexivity. Qed.
 
-Lemma strlit_concat_refuted : exists e : pexpr,
-  py_of e = Ok (VStr [97; 99]) /\ c_of e [] = Some CStuck.
-Proof. exists (EBin Add (EIfExp (EBool true) (EStr [97]) (EStr [98])) (EStr [99])). split; vm_compute; reflexivity. Qed.
+(* "lit" + "lit" and int(<choice between literals>) (repaired defects F-C01-strlit-concat / F-C06-literal-concat and
+   F-C01-int-strlit-cond): the old witnesses now compute Python's value; the general statements are in Proofs/ToCLitP.v *)
+Lemma strlit_concat_witness :
+  let e := EBin Add (EIfExp (EBool true) (EStr [97]) (EStr [98])) (EStr [99]) in
+  py_of e = Ok (VStr [97; 99]) /\ c_of e [] = Some (COk (CStr [97; 99], [])) /\ expr_guard G0 [] e = true.
+Proof. cbv zeta. split; [|split]; vm_compute; reflexivity. Qed.
 
-Lemma int_strlit_cond_refuted : exists e : pexpr,
-  py_of e = Ok (VInt 12) /\ c_of e [] = Some CStuck.
-Proof. exists (ECall n_int [EIfExp (EBool true) (EStr [49; 50]) (EStr [49; 51])] []). split; vm_compute; reflexivity. Qed.
+Lemma int_strlit_cond_witness :
+  let e := ECall n_int [EIfExp (EBool true) (EStr [49; 50]) (EStr [49; 51])] [] in
+  py_of e = Ok (VInt 12) /\ c_of e [] = Some (COk (CInt 12, [])) /\ expr_guard G0 [] e = true.
+Proof. cbv zeta. split; [|split]; vm_compute; reflexivity. Qed.
 
 Lemma len_utf8_refuted : exists e : pexpr,
   py_of e = Ok (VInt 2) /\ c_of e [] = Some (COk (CInt 3, [])).
